@@ -204,7 +204,7 @@ def plan_c08(K, ctx):
 def garbage_plan(K, ctx, prop):
     quick = ctx.tier == "quick"
     cfg = ("SPECIFICATION Spec\n" + consts(MAXTOK=3 if quick else 4, MAXEDITS=1 if quick else 2, TIER=f'"{ctx.tier}"', SEED=ctx.seed) +
-           "INVARIANT WindowsOK\nINVARIANT StepsAdvance\nINVARIANT AcceptedIsWF\nINVARIANT SideDoorsWF\nINVARIANT Emit\nCHECK_DEADLOCK FALSE\n")
+           "INVARIANT WindowsOK\nINVARIANT StepsAdvance\nINVARIANT AcceptedIsWF\nINVARIANT SideDoorsWF\nINVARIANT LexWindowOK\nINVARIANT LexLengthOK\nINVARIANT Emit\nCHECK_DEADLOCK FALSE\n")
     cfg_fold = ("SPECIFICATION Spec\n" + consts(TIER=f'"{ctx.tier}"', SEEDS=16, SEED=ctx.seed) +
                 "INVARIANT AcceptedIsWF\nINVARIANT Emit\nCHECK_DEADLOCK FALSE\n")
     ndrive = 6000 if quick else 150000
@@ -399,8 +399,83 @@ def plan_c15(K, ctx):
     }
 
 
+# ------------------------------------------------------------------------------------------------ C03
+def plan_c03(K, ctx):
+    quick = ctx.tier == "quick"
+    # (a) vocabulary clause on the dumped tables
+    vcfg = "INIT Init\nNEXT Next\nINVARIANT SameVocabulary\nINVARIANT FirstMatchIsSafe\nCHECK_DEADLOCK FALSE\n"
+    out, st = K.tlc("MC_Vocab", vcfg, ctx.rundir, "c03_vocab", ctx.env("ascii"), 1, K.JAVA_OPTS_MC, 600, extra=["-continue"])
+    ctx.states += st["distinct"]
+    ctx.transitions += st["generated"]
+    for e in st["errors"]:
+        if "SameVocabulary is violated" in e:
+            ctx.violations.append(({"id": 0, "c": {"op": "vocabulary", "note": "enum and lexical tables of the same name differ"}, "o": {"alarm": e}},
+                                   ["enum-and-lexical-vocabulary-differ"], "MC_Vocab", "all"))
+        elif "FirstMatchIsSafe is violated" in e:
+            ctx.model_alarms.append("MC_Vocab: " + e)
+        elif "violated" not in e:
+            raise K.ToolError("MC_Vocab failed: " + e)
+    # (b) everything the enum formatter emits, through both pipelines; (c) the same texts with derived copulas and sugar
+    cfg1 = ("SPECIFICATION Spec\n" + consts(TIER=f'"{ctx.tier}"', SEEDS=16, SEED=ctx.seed) + "INVARIANT RoundTrip\nINVARIANT Emit\nCHECK_DEADLOCK FALSE\n")
+    cfg2 = ("SPECIFICATION Spec\n" + consts(TIER=f'"{ctx.tier}"', SEEDS=16, SEED=ctx.seed) + "INVARIANT Meaning\nINVARIANT Emit\nCHECK_DEADLOCK FALSE\n")
+
+    def to_pipe_v(c):
+        c["op"] = "pipe_v"
+        return c
+
+    def one(fmt):
+        def run():
+            cmds = os.path.join(ctx.rundir, f"c03_{fmt}.cmds.ndjson")
+            obs = os.path.join(ctx.rundir, f"c03_{fmt}.obs.ndjson")
+            open(cmds, "w").close()
+            K.run_mc(ctx, "MC_C01", cfg1, fmt, f"c03_{fmt}_values_mc", cmds, workers=5, transform=to_pipe_v)
+            K.run_mc(ctx, "MC_C10", cfg2, fmt, f"c03_{fmt}_sugar_mc", cmds, workers=5)
+            lines = sorted(set(x for x in open(cmds, encoding="utf-8").read().split("\n") if x))
+            open(cmds, "w", encoding="utf-8").write("".join(l + "\n" for l in lines))
+            K.account(ctx, cmds, lambda c: c["op"] == "pipe" or nontrivial_value(c))
+            K.run_exec(ctx, cmds, obs)
+            K.run_judge(ctx, "J_Pipe", fmt, obs, f"c03_{fmt}_judge", shards=3 if quick else 6)
+        return run
+    K.parallel([one(f) for f in K.FORMATS])
+    ctx.exhaustive = not quick
+    return {
+        "note": "MC_Vocab.tla checks on the dumped tables that the enum and the lexical instance of each format describe the same keyword for all "
+                "7 prefixes, 12 connecters, 13 copulas, 4 punctuations, both set brackets, all brackets / separators and the 4 stamp forms, and "
+                "that first-match keyword tests are safe. Then every value of C01's universes is formatted by the REAL enum formatter and the "
+                "text goes through both real pipelines (enum parse; lexical parse + fold), which must both be Ok and give the value; and every "
+                "sugar text of C10's universe (derived copulas at top level and nested, multi-placeholder images, raw intervals) likewise.",
+        "rule": "one case = (value or surface tree, format); non-trivial = not a bare atom",
+        "assumptions": TRUSTED,
+    }
+
+
+# ------------------------------------------------------------------------------------------------ C02
+def plan_c02(K, ctx):
+    cfg = ("SPECIFICATION Spec\n" + consts(TIER=f'"{ctx.tier}"', SEEDS=16, SEED=ctx.seed) +
+           "INVARIANT RoundTrip\nINVARIANT Emit\nCHECK_DEADLOCK FALSE\n")
+
+    def nontrivial(c):
+        v = c["v"]
+        return v["kind"] != "term" or v["v"]["k"] != "Atom"
+
+    K.parallel([(lambda f=f: K.pipeline(ctx, f, "c02", "MC_C02", cfg, "J_C02", nontrivial, workers=6,
+                                        shards=5 if ctx.tier == "thorough" else 2)) for f in K.FORMATS])
+    ctx.exhaustive = ctx.tier == "thorough"
+    return {
+        "note": "LexParser.tla (M8: window [begin, right) cut by budget / truth / stamp / punctuation, recursive segmenters returning lengths) and "
+                "the lexical formatter on the dumped lexical tables and dictionary orders. TLC checks ModelLexParse(ModelLexFormat(x)) = x and the "
+                "length invariant for vocabulary-consistent values: every connecter with 1..3(4) components, both set brackets, all 13 copulas, "
+                "depth-2 nesting, and sentences / tasks over {7 term endings} x 4 punctuations x 7 stamp texts x 4 truth lists (0..3 entries) x "
+                "5 budget lists (0..4 entries); every value goes through the real lexical formatter and parser and is compared field for field.",
+        "rule": "one case = (lexical value, format); non-trivial = not a bare atom",
+        "assumptions": TRUSTED + ["names contain no keyword of the format (the statement's own restriction)"],
+    }
+
+
 PLANS = {
     "C01": plan_c01,
+    "C02": plan_c02,
+    "C03": plan_c03,
     "C15": plan_c15,
     "C11": plan_c11,
     "C16": plan_c16,
@@ -419,7 +494,7 @@ PLANS = {
 
 
 # ------------------------------------------------------------------------------------------------ replay / selftest
-JUDGE_OF = {"C15": "J_C15", "C11": "J_C11", "C16": "J_C16", "C06": "J_C06", "C07": "J_C06", "C04": "J_Garbage", "C05": "J_Garbage", "C12": "J_Garbage", "C08": "J_C08", "C09": "J_Pipe", "C10": "J_Pipe", "C01": "J_C01", "C17": "J_C17", "C14": "J_C14", "C13": "J_C13"}
+JUDGE_OF = {"C02": "J_C02", "C03": "J_Pipe", "C15": "J_C15", "C11": "J_C11", "C16": "J_C16", "C06": "J_C06", "C07": "J_C06", "C04": "J_Garbage", "C05": "J_Garbage", "C12": "J_Garbage", "C08": "J_C08", "C09": "J_Pipe", "C10": "J_Pipe", "C01": "J_C01", "C17": "J_C17", "C14": "J_C14", "C13": "J_C13"}
 
 
 def replay(K, pid, path, seed):
